@@ -1,6 +1,9 @@
 use std::fmt;
 use std::io::ErrorKind;
 use std::ptr;
+#[cfg(may_verif)]
+use crate::verif::atomic::{AtomicBool, AtomicPtr, Ordering};
+#[cfg(not(may_verif))]
 use std::sync::atomic::{AtomicBool, AtomicPtr, Ordering};
 use std::sync::Arc;
 use std::time::Duration;
